@@ -10,8 +10,7 @@ head = open(os.path.join(HERE, "tools", "asbuilt_head.md")).read()
 status = subprocess.run([os.path.join(HERE, "tools", "status_table.py")], capture_output=True, text=True).stdout.strip()
 rows = ["| seed | breaks (from the seeding agent's notes) | caught by (quick tier) | replayed input | baseline suite with the change |",
         "|---|---|---|---|---|"]
-for i in range(1, 21):
-    sid = f"C{i:02d}"
+for sid in sorted(os.listdir(os.path.join(HERE, "seeded"))):
     p = os.path.join(HERE, "seeded", sid, "meta.json")
     if not os.path.exists(p):
         rows.append(f"| {sid} | (no meta) | | | |")
